@@ -285,6 +285,44 @@ func c11(p *model.Prog, r *report.Result) {
 	}
 	mts := layoutSet(ml, "timestamp", nil)
 	r.Check(mts == layoutSet(rl, "Timestamp", nil), "C11.R3", fkey(mod, "layout", "Timestamp"), p.Pos(mod.Pos()), "ModTagTimestamp rewrites "+mts, "ModTagTimestamp writes the timestamp at "+mts+" but the reader reads "+layoutSet(rl, "Timestamp", nil))
+	// bit-level content: bytes 4..6 carry timestamp bits 0..23, byte 7 carries bits 24..31
+	// (what parseTagHeader reassembles), in both writers
+	for _, wfn := range []*ssa.Function{pack, mod} {
+		var tsParam ssa.Value
+		for _, prm := range wfn.Params {
+			if prm.Name() == "timestamp" {
+				tsParam = prm
+			}
+		}
+		var low, high uint64
+		for _, it := range writerLayout(wfn) {
+			if it.Base != nil || tsParam == nil {
+				continue
+			}
+			var val ssa.Value
+			switch x := it.In.(type) {
+			case ssa.CallInstruction:
+				val = x.Common().Args[1]
+			case *ssa.Store:
+				val = x.Val
+			}
+			if val == nil {
+				continue
+			}
+			m, ok := valueBits(val, tsParam)
+			if !ok {
+				continue
+			}
+			if it.Off == 4 && it.Width == 3 {
+				low |= m
+			}
+			if it.Off == 7 && it.Width == 1 {
+				high |= m
+			}
+		}
+		r.Check(low == 0x00FFFFFF && high == 0xFF000000, "C11.R3", fkey(wfn, "bits", "Timestamp"), p.Pos(wfn.Pos()),
+			"bytes 4..6 carry timestamp bits 0..23 and byte 7 bits 24..31", fmt.Sprintf("timestamp bits written: low field %#x (want 0xffffff), extension byte %#x (want 0xff000000): timestamps >= 2^24 ms are not representable in the emitted tag", low, high))
+	}
 	zeros := layoutSet(wl, "const:0", abs)
 	r.Check(zeros == "@10/1,@8/1,@9/1", "C11.R3", fkey(pack, "layout", "StreamId"), p.Pos(pack.Pos()), "stream id bytes 8..10 are constant zero", "stream id bytes are "+zeros+" (expected zero at 8,9,10)")
 	okPrev := false
